@@ -166,7 +166,7 @@ func (fx *Fx) havoc(st *State, ws *writeSet) {
 				}
 				var args []Val
 				for _, a := range c.Args {
-					args = append(args, fx.eval(st, a, false))
+					args = append(args, fx.evalOrFresh(st, a))
 				}
 				bind := fx.specBindings(fd, spec, recv, args)
 				for _, m := range spec.Modifies {
@@ -184,6 +184,20 @@ func (fx *Fx) havoc(st *State, ws *writeSet) {
 	if ws.chanOp {
 		fx.havocChans(st)
 	}
+}
+
+// evalOrFresh evaluates an argument at loop entry; arguments that only exist inside the loop become arbitrary values.
+func (fx *Fx) evalOrFresh(st *State, a ast.Expr) (v Val) {
+	defer func() {
+		if r := recover(); r != nil {
+			t := fx.typeOf(a)
+			if t == nil {
+				panic(r)
+			}
+			v = fx.freshVal(st, "loopArg", t)
+		}
+	}()
+	return fx.eval(st, a, false)
 }
 
 func (fx *Fx) havocTrace(st *State) {
